@@ -415,7 +415,7 @@ fn infer_unary_type(ctx: DocTypeInferContext<'_>, unary_type: &LuaDocUnaryType) 
                 }
                 LuaTypeUnaryOperator::Neg => {
                     if let LuaType::DocIntegerConst(i) = base {
-                        return LuaType::DocIntegerConst(-i);
+                        return LuaType::DocIntegerConst(i.wrapping_neg());
                     }
                 }
                 _ => {}
